@@ -899,6 +899,9 @@ def check_particle_list(ctx, job, tmp, idx, spec):
             job.add('SaveLoad.particles.save', args, 'raises', {'what': 'particle list %d' % idx})
             return
         d1 = dump_nc(f1)
+        for field, a, b in diff_particles(recs, [abs_particle(o, ptype) for o in objs], 0, state=True):
+            _viol(ctx, 'save-alters-model:' + re.sub(r'\[\d+\]', '', field), 'save_particle_to_nc_file changes %s of the particles it saves' % field,
+                  {'field': field, 'before': a, 'after': b, 'spec': sc.jsonable(spec)})
         job.add('SaveLoad.particles.save', args, 'file', {'real': section(d1), 'what': 'particle list %d' % idx, 'skip': ()})
         nc = Dataset(f1)
         try:
@@ -1185,6 +1188,17 @@ def pstates(m):
     return out
 
 
+def require_unchanged(ctx, kind, before, after, where, spec, what, skip=()):
+    """the writer must leave the model it saves as it found it (reference records are taken BEFORE every save)"""
+    for field, a, b in diff_model(kind, before, after, 0, state=True):
+        if re.sub(r'^particles\[\d+\]\.', '', field) in skip:
+            continue
+        ctx.count('violation save-alters-model:' + re.sub(r'\[\d+\]', '', field))
+        _viol(ctx, 'save-alters-model:' + re.sub(r'\[\d+\]', '', field),
+              '%s: %s changes %s of the model it saves (before %s, after %s)' % (where, what, field, str(a)[:70], str(b)[:70]),
+              {'field': field, 'before': a, 'after': b, 'spec': sc.jsonable(spec)})
+
+
 def check_sim(ctx, job, cdir, kind, m, spec, tag):
     """save -> file vs model -> load -> compare -> re-save -> re-load -> compare; text export; profile.
     Returns the set of stages reached.  A raise with the signature of a recorded defect is reported under its key and
@@ -1210,6 +1224,7 @@ def check_sim(ctx, job, cdir, kind, m, spec, tag):
         # tracer; `cj` is then excluded from the comparisons), so that the rest of the pipeline is still exercised
         m.cj = np.zeros(1)
         skip = ('cj',)
+        rec_orig = ABS[kind](m)            # reference of the bypassed model, again BEFORE it is saved
         ctx.count('bypass: cj = [0.] for a simulation without tracers')
         f1 = os.path.join(cdir, 'simb.nc')        # the failed writer left the first file open
         try:
@@ -1219,11 +1234,35 @@ def check_sim(ctx, job, cdir, kind, m, spec, tag):
             report_raise(ctx, e2, 'save', kind, {}, where + ' (cj bypassed)', spec)
             return reached
     reached.add('save')
-    rec = ABS[kind](m)
+    # the reference record was taken BEFORE save_sim; whatever save_sim did to the model must not enter the reference
+    rec = rec_orig
+    require_unchanged(ctx, kind, rec, ABS[kind](m), where, spec, 'save_sim')
     d1 = dump_nc(f1)
     h = header_of(d1)
     args = enc_header(h) + ENC[kind](rec)
     job.add('SaveLoad.%s.save' % kind, args, 'file', {'real': d1, 'what': tag, 'skip': ()})
+    # --- text export carries the numbers of the model (reference taken before any save) and hence of the binary file,
+    #     whose arrays are compared with the same reference after load
+    try:
+        base = os.path.join(cdir, 'txt')
+        with sc.quiet():
+            m.save_txt(base, 'prf.nc', 'C18 profile info')
+        pairs = {'sbm': [(base + '.txt', 't', 'y')], 'bpm': [(base + '.txt', 't', 'q')],
+                 'spm': [(base + '_inner.txt', 'zi', 'yi'), (base + '_outer.txt', 'zo', 'yo')]}[kind]
+        for fn, kx, ky in pairs:
+            tab = np.atleast_2d(np.loadtxt(fn))
+            ctx.evaluations += tab.size
+            if not (same(tab[:, 0], rec[kx]) and same(tab[:, 1:], rec[ky])):
+                _viol(ctx, 'txt-differs:' + kind, '%s: %s does not carry the numbers of the binary file (%s, %s)' % (where, os.path.basename(fn), kx, ky),
+                              {'shape text': list(tab.shape), 'shape binary': [len(rec[kx]), list(np.shape(rec[ky]))], 'spec': sc.jsonable(spec)})
+        if kind == 'bpm':
+            for i, p in [(i, p) for i, p in enumerate(m.particles) if p.farfield]:
+                tab = np.atleast_2d(np.loadtxt(base + '%3.3d.txt' % i))
+                if not (same(tab[:, 0], farr(p.sbm.t)) and same(tab[:, 1:], farr(p.sbm.y))):
+                    _viol(ctx, 'txt-differs:bpm.farfield', '%s: far-field text export differs' % where, {'spec': sc.jsonable(spec)})
+        reached.add('txt')
+    except Exception as e:
+        report_raise(ctx, e, 'save_txt', kind, {}, where, spec)
     # --- load into a NEW object
     try:
         with sc.quiet():
@@ -1277,6 +1316,7 @@ def check_sim(ctx, job, cdir, kind, m, spec, tag):
         return []
 
     resaved = False
+    rec2_ref = rec2                      # the reloaded model BEFORE it is saved again
     try:
         with sc.quiet():
             m2.save_sim(f2, 'prf.nc', 'C18 profile info')
@@ -1289,6 +1329,7 @@ def check_sim(ctx, job, cdir, kind, m, spec, tag):
             # bypass of the recorded defect: hand K_T0 over as the float the writer expects
             for x in sbms(m2):
                 x.K_T0 = float(fnum(x.K_T0))
+            rec2_ref = ABS[kind](m2)     # reference of the bypassed model, again BEFORE it is saved
             ctx.count('bypass: K_T0 of the reloaded single-particle model converted to float')
             f2 = os.path.join(cdir, 'sim2b.nc')   # the failed writer left the first file open
             try:
@@ -1300,10 +1341,11 @@ def check_sim(ctx, job, cdir, kind, m, spec, tag):
     if resaved:
         reached.add('resave')
         try:
-            rec2b = ABS[kind](m2)
+            require_unchanged(ctx, kind, rec2_ref, ABS[kind](m2), where, spec, 'save_sim of the reloaded model')
             d2 = dump_nc(f2)
-            # the model's writer on the reloaded object (its particles carry the state LagElement.update gave them)
-            job.add('SaveLoad.%s.save' % kind, enc_header(header_of(d2)) + ENC[kind](rec2b), 'file',
+            # the model's writer on the reloaded object as it was BEFORE this save (its particles carry the state
+            # LagElement.update gave them at load time)
+            job.add('SaveLoad.%s.save' % kind, enc_header(header_of(d2)) + ENC[kind](rec2_ref), 'file',
                     {'real': d2, 'what': 're-saved ' + tag, 'skip': ()})
             state_vars = ('integrate', 'tp', 'xp', 'yp', 'zp')     # state of a bent-plume particle, not its definition
             soft = [x for x in diff_files(d1, d2, skip_attr_values=DATE_ATTRS)
@@ -1325,27 +1367,6 @@ def check_sim(ctx, job, cdir, kind, m, spec, tag):
                                           {'field': field, 'spec': sc.jsonable(spec)})
         except Exception as e:
             report_raise(ctx, e, 'reload', kind, {}, where, spec)
-    # --- text export carries the same numbers as the binary file
-    try:
-        base = os.path.join(cdir, 'txt')
-        with sc.quiet():
-            m.save_txt(base, 'prf.nc', 'C18 profile info')
-        pairs = {'sbm': [(base + '.txt', 't', 'y')], 'bpm': [(base + '.txt', 't', 'q')],
-                 'spm': [(base + '_inner.txt', 'zi', 'yi'), (base + '_outer.txt', 'zo', 'yo')]}[kind]
-        for fn, kx, ky in pairs:
-            tab = np.atleast_2d(np.loadtxt(fn))
-            ctx.evaluations += tab.size
-            if not (same(tab[:, 0], rec2[kx]) and same(tab[:, 1:], rec2[ky])):
-                _viol(ctx, 'txt-differs:' + kind, '%s: %s does not carry the numbers of the binary file (%s, %s)' % (where, os.path.basename(fn), kx, ky),
-                              {'shape text': list(tab.shape), 'shape binary': [len(rec2[kx]), list(np.shape(rec2[ky]))], 'spec': sc.jsonable(spec)})
-        if kind == 'bpm':
-            for i, p, _q in farfield_pairs(m, m2):
-                tab = np.atleast_2d(np.loadtxt(base + '%3.3d.txt' % i))
-                if not (same(tab[:, 0], farr(p.sbm.t)) and same(tab[:, 1:], farr(p.sbm.y))):
-                    _viol(ctx, 'txt-differs:bpm.farfield', '%s: far-field text export differs' % where, {'spec': sc.jsonable(spec)})
-        reached.add('txt')
-    except Exception as e:
-        report_raise(ctx, e, 'save_txt', kind, {}, where, spec)
     # --- the re-attached profile interpolates like the one the simulation used
     r = np.random.default_rng(spec['profile']['zseed'] + 7)
     zz = r.uniform(-10., spec['profile']['H'] + 20., 100)
